@@ -36,6 +36,7 @@ Definition dispatch (id : Z) (s : list Z) : list Z :=
   else if id =? 1501 then run_P chk_order s
   else if id =? 1100 then run_P chk_conchist s
   else if id =? 1101 then run_P chk_pick_schedule s
+  else if id =? 1102 then run_P chk_readonly s
   else [8].
 
 (** used by cases.v: the list of case numbers whose verdict is not OK *)
